@@ -25,6 +25,14 @@ RunRight(b) == Reverse(RunLeft(Reverse(b)))
 MinRunFold(b, m) == LET l == RunLeft(b)  r == RunRight(b) IN
                     Strict([i \in 1 .. Len(b) |-> b[i] /\ l[i] + r[i] - 1 >= m])
 
+\* ---- run-length coding, for arrays far too long to enumerate element by element (runs of 2^15, 2^16 and more elements) ----
+\* r: sequence of <<value, length>> of the maximal constant runs of an array.  A TRUE run keeps all its elements when it is long
+\* enough and none otherwise; a FALSE run never gains one.  MC_RunFilter checks that this is MinRun seen through the coding.
+Encode(b) == FoldLeft(LAMBDA acc, x : IF acc # <<>> /\ acc[Len(acc)][1] = x THEN [acc EXCEPT ![Len(acc)][2] = @ + 1] ELSE Append(acc, <<x, 1>>), <<>>, b)
+KeptPerRun(r, m) == Strict([k \in 1 .. Len(r) |-> IF r[k][1] /\ r[k][2] >= m THEN r[k][2] ELSE 0])
+RunStart(r, k) == 1 + FoldLeft(LAMBDA acc, j : acc + r[j][2], 0, Strict([j \in 1 .. (k - 1) |-> j]))
+TruePerRun(r, o) == Strict([k \in 1 .. Len(r) |-> Cardinality({ i \in RunStart(r, k) .. (RunStart(r, k) + r[k][2] - 1) : o[i] })])
+
 \* ---- what C08 states about an output o for input b and minimum m ----
 SameLength(b, o)   == Len(o) = Len(b)
 LongKept(b, m, o)  == \A w \in MaxRuns(b) : w[2] - w[1] + 1 >= m => \A i \in w[1] .. w[2] : o[i]
